@@ -30,8 +30,10 @@ CONSTANTS
   AdvSet = {{}}
   MaxTime = 0
   Grid = {{0}}
+  MaxInst = 2
 VIEW View
 INVARIANT RegressInv
+CONSTRAINT InstBound
 CHECK_DEADLOCK FALSE
 '''
     open(V+'/spec/MCRegress.tla','w').write('---- MODULE MCRegress ----\nEXTENDS MCActs\nRegressInv == '+inv+'\n====\n')
